@@ -270,6 +270,11 @@ def concretize_type(t, reg: Registry):
         mid = concretize_type(t[2], reg)
         post = [concretize_type(e, reg) for e in t[3]]
         return subscript(typing.Tuple, (*pre, typing.Unpack[subscript(typing.Tuple, (mid, ...))], *post))
+    if tag == "ustar":
+        pre = [concretize_type(e, reg) for e in t[1]]
+        mid = concretize_type(t[2], reg)
+        post = [concretize_type(e, reg) for e in t[3]]
+        return tuple[(*pre, *tuple[mid, ...], *post)]
     two = {
         "dict": typing.Dict, "odict": typing.OrderedDict, "ddict": typing.DefaultDict,
         "mapping": typing.Mapping, "mmapping": typing.MutableMapping, "chainmap": typing.ChainMap,
